@@ -1609,6 +1609,14 @@ class Interp:
             cs.env['self'] = s.env['self']
         if bound and receiver is None and 'cls' in s.env and 'cls' not in local and node.args.args and node.args.args[0].arg == 'cls':
             cs.env['cls'] = s.env['cls']
+        elif bound and receiver is None and info is not None and 'classmethod' in getattr(info, 'decorators', ()) and node.args.args \
+                and node.args.args[0].arg not in local:
+            me_ = s.env.get('self')
+            k_ = me_.cls if isinstance(me_, Obj) and isinstance(me_.cls, M.ClassInfo) else (getattr(self.h, 'cls', None) or info.cls)
+            if isinstance(me_, Obj) and isinstance(me_.attrs.get('__classobj'), Obj):
+                k_ = me_.attrs['__classobj']
+            if k_ is not None:
+                cs.env[node.args.args[0].arg] = k_           # self.method(...) of a class method: cls is the class of self
         if is_gen and self.lazy_generators and fuse_req is None and not share_yields_req:
             # a generator object: nothing of the body runs now
             genv = {k: v for k, v in cs.env.items() if not re.match(r'__(caller|yields|ysnap|fuse|gen)@\d+$', k) and not _FRAME_LOCAL.match(k)}
@@ -2740,7 +2748,11 @@ class Interp:
         for x in ast.walk(call):
             x.lineno, x.col_offset, x.end_lineno, x.end_col_offset = lineno, 0, lineno, 0
         try:
-            return self._inline_single(call, s)
+            r = self._inline_single(call, s)
+            if r is None:
+                v = self.ev(call, s)           # not interpreted in place (a public method, or one the scenario answers itself)
+                r = None if v is TOP else (v,)
+            return r
         finally:
             for nm_ in names.values():
                 s.env.pop(nm_, None)
